@@ -9,14 +9,23 @@ locations (error class included), and the real digest → location → parse →
 Theorems: Properties/C08.lean (`delete_complete`, `delete_only_requested`, `clean_no_orphans`, `clean_exact`, `gc_frame`,
 `clean_keeps_snapshots`, `location_roundtrip`, `snapshot_location_roundtrip`, `location_injective`).
 
+(3) the REAL local backend (`impl/c08_localgc.py`): generated directory trees handed to the real `Local.clean()` and real repositories on
+`replicat.backends.local.Local` with foreign objects of every name shape outside the two areas (`*.tmp`, look-alikes of `data` / `snapshots` /
+`config`, dot-files, very long names, empty objects, empty and emptied directories), histories in which `clean` really deletes orphans so
+that the backend's own clean-up runs; every `Local.clean()` call is compared with `localclean.run` (ReplicatModel/LocalClean.lean), every
+command with `repo.step`.  Theorems `local_clean_keeps_files`, `local_clean_removes_exactly_fileless_dirs`, `local_clean_keeps_ancestors`,
+`local_clean_idempotent`, `local_clean_scan_order_irrelevant`, `local_gc_frame` (they consume `Gen.localCleanFileRemovers / DirRemovers / NonDirFlags`).
+
 Direct oracles on the REAL backend after every delete / clean: chunks referenced only by the deleted snapshots are gone, exactly
 the requested snapshot objects are gone, nothing unrelated is removed; after clean the caller's chunk objects are exactly the
 previously stored ones that a remaining snapshot references; config, stray objects and (encrypted) other families' objects are
-bit-identical; `parse(build(name, tag)) == (name, tag)` for hex strings with |tag| ≥ 4 (chunks) / ≥ 2 (snapshots).
+bit-identical; `parse(build(name, tag)) == (name, tag)` for hex strings with |tag| ≥ 4 (chunks) / ≥ 2 (snapshots); on the local backend
+every foreign file is still a regular file with identical bytes after every command and after every `Local.clean()`, and `clean` completes.
 """
 import json
 
 from ..common import rng_for
+from ..impl import c08_localgc as LG
 from ..impl import histx as X
 from ..impl import runner as R
 
@@ -225,10 +234,15 @@ def run(out, drv, info):
     n_hist, n_ops = (120, 12) if quick else (1000, 30)
     out.rule = ('history cases as in C02 (own seed label); non-trivial = a successful delete or clean in a state with ≥ 1 orphaned chunk or ≥ 1 object of another key family; '
                 'format cases = (name, tag) from hex strings of length 0–128 and strings with - / and non-hex characters, both location kinds, plus malformed locations '
-                '(missing / shifted prefix, random - and /); non-trivial = non-empty hex name and hex tag of the stated minimum length; distinct = hash of the case')
+                '(missing / shifted prefix, random - and /); non-trivial = non-empty hex name and hex tag of the stated minimum length; distinct = hash of the case; '
+                'local-backend cases = directory trees (area content, emptied fan-out directories, stray files / directories drawn from the name-shape universe of '
+                'impl/c08_localgc.py) given to the real Local.clean(), non-trivial = ≥ 1 stray object and ≥ 1 directory without a file below it; and histories on the real '
+                'Local backend with strays planted before and during the history, non-trivial = the backend clean-up ran (a clean deleted ≥ 1 orphan) with ≥ 1 stray present')
     out.assumptions = ['ideal cryptography: MAC names injective per key family, tags unforgeable (DESIGN.md §4)',
                        'the chunk and snapshot areas contain only objects written by replicat (well-formed object map)',
-                       'destructive commands do not overlap with other commands', 'unencrypted repository = one family: every object under data/ is the caller\'s']
+                       'destructive commands do not overlap with other commands', 'unencrypted repository = one family: every object under data/ is the caller\'s',
+                       'local backend: the repository directory holds regular files and directories only (no symbolic links, devices, other mount points); '
+                       'a directory is not an object — empty directories of the user are removed by the clean-up (counted as an observation)']
     X.run(out, drv, 'C08', n_hist, n_ops, ORACLES, X.c08_nontrivial, EXTRA)
     format_cases(out, drv, 400 if quick else 6000)
     own_chunk_cases(out, 40 if quick else 400)
@@ -247,6 +261,9 @@ def run(out, drv, info):
         out.count('faulty-load:%s:%s' % (res['summary'].get('cmd'), res['summary'].get('error')))
         for sig, what in res['violations']:
             out.violation(sig, what, {'kind': 'faulty-load', 'seed': out.seed, 'idx': res['idx']})
+    # the REAL local backend with foreign objects of every name shape outside the two areas (its own clean-up walks the whole directory)
+    n_trees, n_lh, n_lops = (200, 40, 9) if quick else (3000, 400, 14)
+    LG.run(out, drv, n_trees, n_lh, n_lops)
 
 
 def replay(path, drv):
@@ -265,6 +282,8 @@ def _replay(path, drv):
         back = impl_parse(parse, loc)
         print('location', loc, 'parsed', back)
         return 0 if (back.get('name') == rp['name'] and back.get('tag') == rp['tag']) else 1
+    if rp.get('kind') in ('local-tree', 'local-history'):
+        return LG.replay(rp, drv)
     if rp.get('kind') == 'format-tie':
         print('model', drv.ask(rp['request']) if drv is not None else None)
         return 1
